@@ -60,7 +60,7 @@ class Ctx:
         if z3.is_expr(t) and not any(t.eq(p) for p in self.pool):
             self.pool.append(t)
             # tell the feasibility solver the instances of the ∀-facts of this path at the new index term
-            for c in self.pc:
+            for c in list(self.pc) + list(self.__dict__.get('_unfold_alls', [])):
                 if isinstance(c, dsl.All):
                     self._instantiate(c, t)
 
@@ -70,8 +70,31 @@ class Ctx:
             if isinstance(body, bool):
                 body = z3.BoolVal(body)
             self.solver.add(z3.Implies(z3.And(c.lo <= t, t < c.hi), body))
+            self._unfold_defs(body)
         except z3.Z3Exception:
             pass
+
+    def _unfold_defs(self, e):
+        """feasibility solver only: quantifier-free part of  P(t) ==> body(t)  for defined predicates in e"""
+        if not dsl.DEFS or not z3.is_expr(e):
+            return
+        stack = [e]
+        seen = self.__dict__.setdefault('_unfolded', set())
+        while stack:
+            x = stack.pop()
+            if z3.is_app(x):
+                if x.decl().name() in dsl.DEFS and x.get_id() not in seen:
+                    seen.add(x.get_id())
+                    self.__dict__.setdefault('_unfold_keep', []).append(x)
+                    for cl in dsl.flat(dsl.DEFS[x.decl().name()](*x.children())):
+                        if isinstance(cl, dsl.All):
+                            q = dsl.All(cl.lo, cl.hi, lambda k, cl=cl, x=x: z3.Implies(x, cl.f(k)), cl.name)
+                            for t in list(self.pool):
+                                self._instantiate(q, t)
+                            self.__dict__.setdefault('_unfold_alls', []).append(q)
+                        elif not isinstance(cl, (dsl.Q, dsl.AnyOf)):
+                            self.solver.add(z3.Implies(x, cl if not isinstance(cl, bool) else z3.BoolVal(cl)))
+                stack.extend(x.children())
 
     # ---- assumptions
     def assume(self, clause):
@@ -94,6 +117,7 @@ class Ctx:
                     c = z3.BoolVal(c)
                 self.pc.append(c)
                 self.solver.add(c)
+                self._unfold_defs(c)
 
     def feasible(self, e):
         self.nq += 1
